@@ -173,6 +173,7 @@ def _definition(cell, mode, stats):
         # positions that are irregular in the strict sense but still inside (0,u) belong to the code's isclose conventions:
         # they are outside this property's regular region and are not compared (claims are guarded by `strict`)
         sg = [z3.And(*strict[:j + 1]) for j in range(n)]
+        supplied = list(inst.x.a)
         try:
             etas, lams = rule_values(inst)
             if mode == "abstract":
@@ -226,6 +227,10 @@ def _definition(cell, mode, stats):
                 if finite_N and j == n - 1:
                     guard = z3.And(guard, Ssum[n] <= z3.ToReal(inst.Nz) * t)
                 claims.append((f"history[{j + 1}] = min(1, 1/prod of published factors)", "bool", z3.Implies(guard, _b(hs[j]._eq(want)))))
+        # the sample is the caller's array: a call that altered it would make the next call report on different data
+        if len(inst.x.a) != n or any(a is not b for a, b in zip(inst.x.a, supplied)):
+            same = And(*[EV.of(a)._eq(EV.of(b)) for a, b in zip(inst.x.a, supplied)]) if len(inst.x.a) == n else False
+            claims.append(("the call leaves the supplied sample array unchanged", "bool", _b(same)))
         # conventions (all paths)
         if finite_N:
             Nt = z3.ToReal(inst.Nz) * t
@@ -471,12 +476,16 @@ def replay(f):
         return dict(reproduced=bool(bad), detail="; ".join(bad) or "held")
     T, NMmod = nnm.real_instance(cell, inp)
     x = np.array([nnm.fl(v) for v in inp["x"]])
+    x0 = x.copy()
     n = len(x)
     bad = []
     try:
         with np.errstate(all="ignore"):
             p, hist = T.test(x)
             hist = np.asarray(hist, dtype=float)
+            if not np.array_equal(x, x0):
+                bad.append(f"the call changed the supplied sample array from {x0.tolist()} to {x.tolist()}: a second call on it reports on different data")
+                x = x0.copy()
             if cell["kind"] == "equivalence":
                 NM = NMmod.NonnegMean
 
